@@ -40,7 +40,9 @@ def stdPrims : Prims :=
 def fsOfList (files : List (Bytes × Bytes)) : FS :=
   { read := fun p => match files.find? (fun f => f.1 == p) with
       | some f => .content f.2
-      | none => .notExist,
+      | none =>
+        -- the layout's own directories (and ".") exist but cannot be read as files
+        if p == [46] || files.any (fun f => isPrefixOfB (p ++ [47]) f.1) then .otherError else .notExist,
     cache := fun _ => none }
 
 /-! ## Canonical result line of a whole render (must match `harness/stream_render.go`) -/
